@@ -20,7 +20,7 @@ RULE = ("Cases = (row-length vector from the empty-row-placement templates, elem
 ASSUMPTIONS = ["dtype is compared only when the result has at least one element",
                "sizes <= ~3k elements; offsets near 2**31 are not explored"]
 
-ROUTES = ["lists+dtype", "numpy-rows", "flat+lengths", "flatlist+lengths", "flat+RaggedShape", "flat+tuple", "flat+np-lengths"]
+ROUTES = ["lists+dtype", "numpy-rows", "numpy-rows-infer", "flat+lengths", "flatlist+lengths", "flat+RaggedShape", "flat+tuple", "flat+np-lengths"]
 
 
 def construct(case):
@@ -34,6 +34,8 @@ def construct(case):
         return RaggedArray([r.tolist() for r in rows], dtype=dt)
     if route == "numpy-rows":
         return RaggedArray(rows, dtype=dt)
+    if route == "numpy-rows-infer":      # element type taken from the rows themselves
+        return RaggedArray(rows)
     if route == "flat+lengths":
         return RaggedArray(flat, lens)
     if route == "flatlist+lengths":
